@@ -20,7 +20,9 @@ CONFIG = {
             "once alone; random sequences of the version's ops with random immediates of every kind, labels forward/backward/self/end, "
             "constant blocks, optional unreferenced or undefined labels, the three autosalt modes; a type-correct sub-stream accepted "
             "with type tracking on; hand-shaped layouts at the 1/2/3-byte varint and int16 branch-distance limits, switch/match "
-            "tables, subroutines, constant blocks in dead code, constant lists at the 64 KiB line limit), printed with the ops' names "
+            "tables, subroutines, constant blocks in dead code, constant lists at the 64 KiB line limit; directed cascades for findBranchSizes: "
+            "k = 1..6 overlapping v13+ varint branches, forward and backward, each exactly at the 63/64 resp. 8191/8192 distance once the "
+            "next one has its final size, so that exactly k shrinking sweeps are needed, 1-3 chains in a row, mixed with switch tables), printed with the ops' names "
             "and the real field names, through the real assembler, static check, disassembler and two re-assemblies. d: raw bytecode "
             "from a table-driven encoder (non-minimal varints, any field byte, branch offsets on and off instruction boundaries, "
             "byte mutations, truncation; every field byte of every field-taking op) through the real static check, disassembler and "
